@@ -47,7 +47,7 @@ func init() {
 		Assumptions: []string{"the observation dump (lookups, tags, geometry, locations, searches, references, traversal, enumeration, tokens) is what 'answers every query' means"},
 		Quick:       len(c13Faults) * len(c13Worlds) * 4, Thorough: len(c13Faults) * len(c13Worlds) * 300,
 		Required: []string{"rejected", "rejected_basic-mutable", "rejected_overlay-target-in-base", "rejected_overlay-path-resident",
-			"fault_path-open", "fault_move-point", "fault_merged-fail-middle", "fault_merged-fail-tag-last", "merged_all_valid_applied"},
+			"fault_path-open", "fault_move-point", "fault_merged-fail-middle", "fault_merged-fail-tag-last", "merged_all_valid_applied", "ring_shared_by_several_areas"},
 		Run: func(c *core.Ctx) {
 			r := c.R
 			fault := c13Faults[c.Index%len(c13Faults)]
@@ -80,6 +80,16 @@ func init() {
 				specs = append(specs, hole)
 			}
 			specs = append(specs, area, open)
+			// further features over the same ring: a rejected change to the ring (or to one of its
+			// points) then invalidates several referrers at once, not just one
+			if r.Chance(0.4) {
+				for i, n := 0, r.Range(3, 6); i < n; i++ {
+					a := &wm.Spec{ID: g.NewID(b6.FeatureTypeArea, b6.NamespaceOSMWay), Tags: []b6.Tag{{Key: "#landuse", Value: b6.NewStringExpression("yes")}},
+						Polys: []wm.Poly{{PathIDs: []b6.FeatureID{ring.ID}}}}
+					specs = append(specs, a)
+				}
+				c.Count("ring_shared_by_several_areas")
+			}
 			model := wm.ModelOf(specs)
 
 			var world ingest.MutableWorld
